@@ -10,7 +10,7 @@ import translate as T
 
 BM = {'blocks_inuse': 'inuse', 'blocks_committed': 'committed', 'blocks_purge': 'purge', 'blocks_dirty': 'dirty'}
 HAS = {'blocks_committed': 'hasCommitted', 'blocks_purge': 'hasPurge', 'blocks_dirty': 'hasDirty'}
-DROP = {'_mi_stat_decrease', '_mi_stat_increase', '_mi_stat_counter_increase', '_mi_warning_message', '_mi_verbose_message'}
+DROP = {'_mi_stat_decrease', '_mi_stat_increase', '_mi_stat_counter_increase', '_mi_warning_message', '_mi_verbose_message', '_mi_error_message'}
 FUNCS = ['mi_arena_purge', 'mi_arena_schedule_purge', 'mi_arena_try_alloc_at']
 BLOCK = 33554432
 
@@ -144,6 +144,10 @@ def bexpr(cx, e, env, pre):
             return '(bmAllSet σ.%s %s %s)' % (f, i, n)
         if c == '_mi_preloading':
             return cx.param('preloading', 'Bool')
+        if c == '_mi_bitmap_unclaim_across':
+            f = bm_field(cx, a[0]); n = iexpr(cx, a[2], env); i = iexpr(cx, a[3], env)
+            lv = cx.fresh('all_set'); pre.append('let %s := bmAllSet σ.%s %s %s' % (lv, f, i, n)); pre.append('let σ := { σ with %s := mClr σ.%s %s %s }' % (f, f, i, n))
+            return lv
     cx.err('unsupported boolean expression ' + str(k))
 
 
@@ -355,6 +359,28 @@ def call_stmt(cx, s, rest, env, ind):
     cx.err('unsupported call ' + c)
 
 
+def find_free_core(f):
+    """the statements of _mi_arena_free's arena branch from the commit-state test up to the release of the in-use bits"""
+    def walk(n):
+        if n.get('kind') == 'CompoundStmt':
+            st = [c for c in n.get('inner', []) if c.get('kind') != 'NullStmt']
+            for i, c in enumerate(st):
+                if c.get('kind') == 'IfStmt':
+                    cond = strip(c['inner'][0])
+                    def mentions(e, path):
+                        if member_path(e) == path:
+                            return True
+                        return any(mentions(x, path) for x in e.get('inner', []))
+                    if mentions(cond, ('arena', 'memid', 'is_pinned')) and mentions(cond, ('arena', 'blocks_committed')):
+                        return st[i:]
+        for c in n.get('inner', []):
+            r = walk(c)
+            if r:
+                return r
+        return None
+    return walk([c for c in f['inner'] if c.get('kind') == 'CompoundStmt'][0])
+
+
 def translate(tu):
     out = ['-- GENERATED by /verif/extract/arenatr.py from %s/src/arena.c (clang AST). DO NOT EDIT.' % tu.repo,
            'import MiVerif.Gen.ArenaPrelude', 'set_option linter.unusedVariables false', 'namespace GenR']
@@ -399,5 +425,23 @@ def translate(tu):
         out.append('def %s (σ : ArSt) %s %s : %s :=' % (fn, ' '.join(names), extra, rtype))
         out += lines
         out.append('')
+    # the core of _mi_arena_free
+    f = tu.FNS.get('_mi_arena_free')
+    if f is None:
+        raise T.TranslateError('function _mi_arena_free not found')
+    core = find_free_core(f)
+    if not core:
+        raise T.TranslateError('_mi_arena_free: the commit-state / release part was not found')
+    cx = Cx('_mi_arena_free'); cx.sub = sigs
+    env = {'all_committed': 'all_committed', '#b:all_committed': True, 'bitmap_idx': 'bitmap_idx', 'blocks': 'blocks'}
+    cx.ret_default = lambda env: 'σ'
+    cx.ret_value = lambda s, env: 'σ'
+    lines = tr(cx, core, env, 1)
+    extra = ' '.join('(%s : %s)' % (n, t) for n, t in cx.params)
+    out.append('/-- `_mi_arena_free`, arena branch, from the commit-state test to the release of the in-use bits (memid decoding, arena lookup and the')
+    out.append('    final `mi_arenas_try_purge` are not part of it) -/')
+    out.append('def _mi_arena_free_core (σ : ArSt) (all_committed : Bool) (bitmap_idx : Int) (blocks : Int) %s : ArSt :=' % extra)
+    out += lines
+    out.append('')
     out.append('end GenR')
     return '\n'.join(out) + '\n'
